@@ -15,6 +15,14 @@ for p in (str(REPO / "src"), str(VERIF / "support")):
 _COUNTER = [0]
 
 
+def restore_signals():
+    """RuntimeEngine installs end_execution as SIGINT/SIGTERM handler: undo, so that worker pools can be terminated"""
+    import signal
+
+    signal.signal(signal.SIGTERM, signal.SIG_DFL)
+    signal.signal(signal.SIGINT, signal.default_int_handler)
+
+
 def fresh_engine(analyses_lines=("vrec.Rec",), coverage_dir=None):
     """Create a RuntimeEngine through its real constructor (analyses file, env, singleton)."""
     from dynapyt.runtime import RuntimeEngine
@@ -36,6 +44,7 @@ def fresh_engine(analyses_lines=("vrec.Rec",), coverage_dir=None):
     vrec.reset()
     with contextlib.redirect_stderr(io.StringIO()):
         rt = RuntimeEngine()
+    restore_signals()
     af.unlink()
     return rt
 
